@@ -4,7 +4,7 @@
 From Resolvo Require Export Spec.Ref.
 
 Definition o_valid (u : universe) (P : problem) (S : list N) : bool :=
-  validb (table_provider u) P S (exempt P S).
+  validb (table_provider u) P S (exempt (table_provider u) P S).
 
 Definition o_supported (u : universe) (P : problem) (S : list N) : bool :=
   supportedb (table_provider u) P S.
@@ -46,7 +46,7 @@ Definition o_explicit_first (u : universe) (P : problem) : option (list N) :=
   end.
 
 Lemma o_valid_spec u P S :
-  o_valid u P S = true <-> valid (table_provider u) P S (exempt P S).
+  o_valid u P S = true <-> valid (table_provider u) P S (exempt (table_provider u) P S).
 Proof. apply validb_spec. Qed.
 
 Lemma o_supported_spec u P S :
@@ -92,15 +92,16 @@ Qed.
 
 (* ---------- C14: which soft requirements must be accepted ---------- *)
 
-(* [G] (containing x) is a consistent selection -- valid WITHOUT any exemption:
-   a soft solvable that its own package excludes or locks out may legitimately
-   be rejected once that package is requested -- closed under first choices, in
+(* [G] (containing x) is a consistent selection -- valid under the documented
+   exemption: a soft solvable that its own package excludes or locks out is
+   acceptable only while no selected solvable (or the root) requests that
+   package through a version set -- closed under first choices, in
    which every requirement is met only by its first choice: installing x on
    top of a conflict-free selection yields exactly this *)
 Definition soft_step_ok (u : universe) (P : problem) (G : list N) (x : N) : bool :=
   let U := table_provider u in
   memN x G &&
-  validb U P G [] &&
+  validb U P G (exempt U P G) &&
   supportedb U P G &&
   forallb (first_choiceb_ok U G) (all_reqs_list U P G).
 
@@ -108,7 +109,12 @@ Definition soft_step_ok (u : universe) (P : problem) (G : list N) (x : N) : bool
    must be clear-cut: either the first-ranked closure of x is compatible
    (accept), or no valid selection extends the current one with x at all
    (reject).  Returns the accepted solvables with the selection they lead to. *)
-Fixpoint soft_expect (fuel : nat) (u : universe) (P : problem) (G : list N) (softs : list N)
+(* [obs] is the solution the implementation returned.  A soft solvable that needs
+   the exemption itself (excluded / locked out by its own package) is not judged:
+   whether its package counts as "requested" depends on what the solver explored.
+   If it was accepted, the oracle continues on top of it (provided its
+   first-ranked closure is what was installed); if not, it is skipped. *)
+Fixpoint soft_expect (fuel : nat) (u : universe) (P : problem) (obs : list N) (G : list N) (softs : list N)
   : option (list (N * list N)) :=
   match softs with
   | [] => Some []
@@ -116,54 +122,68 @@ Fixpoint soft_expect (fuel : nat) (u : universe) (P : problem) (G : list N) (sof
     let U := table_provider u in
     if memN x G then
       if soft_step_ok u P G x then
-        match soft_expect fuel u P G t with Some r => Some ((x, G) :: r) | None => None end
+        match soft_expect fuel u P obs G t with Some r => Some ((x, G) :: r) | None => None end
       else None
+    else if negb (pkg_okb U x) then
+      if memN x obs then
+        match greedy_close U fuel (dep_reqs U x) (G ++ [x]) with
+        | Some G' => if forallb (fun s => memN s obs) G' && soft_step_ok u P G' x
+                     then soft_expect fuel u P obs G' t else None
+        | None => None
+        end
+      else soft_expect fuel u P obs G t
     else
-      let clear_reject := negb (u_solvable_with_ex u P (G ++ [x]) (pr_soft P)) in
+      let clear_reject := negb (u_solvable_with_soft u P (G ++ [x])) in
       match greedy_close U fuel (dep_reqs U x) (G ++ [x]) with
       | Some G' =>
         if soft_step_ok u P G' x then
-          match soft_expect fuel u P G' t with Some r => Some ((x, G') :: r) | None => None end
-        else if clear_reject then soft_expect fuel u P G t else None
-      | None => if clear_reject then soft_expect fuel u P G t else None
+          match soft_expect fuel u P obs G' t with Some r => Some ((x, G') :: r) | None => None end
+        else if clear_reject then soft_expect fuel u P obs G t else None
+      | None => if clear_reject then soft_expect fuel u P obs G t else None
       end
   end.
 
-Definition o_soft_expect (u : universe) (P : problem) : option (list (N * list N)) :=
+Definition o_soft_expect (u : universe) (P : problem) (obs : list N) : option (list (N * list N)) :=
   match greedy (table_provider u) (greedy_fuel u P) (mkProblem (pr_reqs P) (pr_cons P) []) with
-  | Some G0 => soft_expect (greedy_fuel u P) u P G0 (pr_soft P)
+  | Some G0 => soft_expect (greedy_fuel u P) u P obs G0 (pr_soft P)
   | None => None
   end.
 
 (* the oracle only expects a soft solvable to be accepted when a consistent
    first-choice-closed selection containing it exists *)
-Lemma soft_expect_sound fuel u P : forall softs G r x G',
-  soft_expect fuel u P G softs = Some r -> In (x, G') r ->
+Lemma soft_expect_sound fuel u P obs : forall softs G r x G',
+  soft_expect fuel u P obs G softs = Some r -> In (x, G') r ->
   In x softs /\ soft_step_ok u P G' x = true.
 Proof.
   induction softs as [|y t IH]; intros G r x G' H Hin; cbn [soft_expect] in H.
   - inversion H. subst. destruct Hin.
   - destruct (memN y G) eqn:Ey.
     + destruct (soft_step_ok u P G y) eqn:Eok; [|discriminate].
-      destruct (soft_expect fuel u P G t) as [r'|] eqn:Er; [|discriminate]. inversion H. subst.
+      destruct (soft_expect fuel u P obs G t) as [r'|] eqn:Er; [|discriminate]. inversion H. subst.
       destruct Hin as [E|Hin].
       * inversion E. subst. split; [left; reflexivity | exact Eok].
       * destruct (IH G r' x G' Er Hin) as [H1 H2]. split; [right; exact H1 | exact H2].
-    + destruct (greedy_close (table_provider u) fuel (dep_reqs (table_provider u) y) (G ++ [y])) as [G1|].
-      * destruct (soft_step_ok u P G1 y) eqn:Eok.
-        -- destruct (soft_expect fuel u P G1 t) as [r'|] eqn:Er; [|discriminate]. inversion H. subst.
-           destruct Hin as [E|Hin].
-           ++ inversion E. subst. split; [left; reflexivity | exact Eok].
-           ++ destruct (IH G1 r' x G' Er Hin) as [H1 H2]. split; [right; exact H1 | exact H2].
-        -- destruct (negb (u_solvable_with_ex u P (G ++ [y]) (pr_soft P))); [|discriminate].
+    + destruct (negb (pkg_okb (table_provider u) y)).
+      * destruct (memN y obs).
+        -- destruct (greedy_close (table_provider u) fuel (dep_reqs (table_provider u) y) (G ++ [y])) as [G1|]; [|discriminate].
+           destruct (forallb (fun s => memN s obs) G1 && soft_step_ok u P G1 y); [|discriminate].
+           destruct (IH G1 r x G' H Hin) as [H1 H2]. split; [right; exact H1 | exact H2].
+        -- destruct (IH G r x G' H Hin) as [H1 H2]. split; [right; exact H1 | exact H2].
+      * destruct (greedy_close (table_provider u) fuel (dep_reqs (table_provider u) y) (G ++ [y])) as [G1|].
+        -- destruct (soft_step_ok u P G1 y) eqn:Eok.
+           ++ destruct (soft_expect fuel u P obs G1 t) as [r'|] eqn:Er; [|discriminate]. inversion H. subst.
+              destruct Hin as [E|Hin].
+              ** inversion E. subst. split; [left; reflexivity | exact Eok].
+              ** destruct (IH G1 r' x G' Er Hin) as [H1 H2]. split; [right; exact H1 | exact H2].
+           ++ destruct (negb (u_solvable_with_soft u P (G ++ [y]))); [|discriminate].
+              destruct (IH G r x G' H Hin) as [H1 H2]. split; [right; exact H1 | exact H2].
+        -- destruct (negb (u_solvable_with_soft u P (G ++ [y]))); [|discriminate].
            destruct (IH G r x G' H Hin) as [H1 H2]. split; [right; exact H1 | exact H2].
-      * destruct (negb (u_solvable_with_ex u P (G ++ [y]) (pr_soft P))); [|discriminate].
-        destruct (IH G r x G' H Hin) as [H1 H2]. split; [right; exact H1 | exact H2].
 Qed.
 
 Lemma soft_step_ok_spec u P G x :
   soft_step_ok u P G x = true ->
-  In x G /\ valid (table_provider u) P G [] /\ supported (table_provider u) P G /\
+  In x G /\ valid (table_provider u) P G (exempt (table_provider u) P G) /\ supported (table_provider u) P G /\
   (forall r, all_reqs (table_provider u) P G r ->
      exists f, first_choice (table_provider u) r = Some f /\ In f G /\
                forall s, In s G -> cand_of (table_provider u) r s -> s = f).
